@@ -247,6 +247,42 @@ def asBytes (p : Msg) : Except Err Bytes :=
     if pl.length ≥ 65536 then .error .overflow else
     .ok (pl.length / 256 :: pl.length % 256 :: pl)
 
+/-- the part of `from_bytes` after the first header and the trailer test: dispatch on the PDU type -/
+def parseRest (data : Bytes) (h : FirstHeader) (csbk : Bool) : Except Err Msg :=
+  match h.ptype with
+  | .devReg | .userReg =>
+    match (if h.more then
+             (match data[3]? with
+              | none => Except.error Err.assertion
+              | some b => (rrhOfByte b).map some)
+           else .ok none) with
+    | .error e => .error e
+    | .ok rrh =>
+      let idx := if h.more then 4 else 3
+      match readLv data idx with
+      | .error e => .error e
+      | .ok (i1, d) =>
+        match readLv data i1 with
+        | .error e => .error e
+        | .ok (i2, u) =>
+          match readLv data i2 with
+          | .error e => .error e
+          | .ok (_, w) =>
+            if validUtf8 d && validUtf8 u && validUtf8 w then
+              .ok ⟨h, rrh, none, some d, some u, some w, csbk⟩
+            else .error .unicode
+  | .response =>
+    if h.more then
+      match data[3]? with
+      | none => .error .assertion
+      | some b =>
+        match rshOfByte b h.ack with
+        | .error e => .error e
+        | .ok r => .ok ⟨h, none, some r, none, none, none, csbk⟩
+    else .ok ⟨h, none, none, none, none, none, csbk⟩
+  | .query | .devDereg => .ok ⟨h, none, none, none, none, none, csbk⟩
+  | .userDereg | .userRegResp => .error .value   -- "not implemented in ARS.from_bytes"
+
 /-- `AutomaticRegistrationService.from_bytes` -/
 def fromBytes (data : Bytes) : Except Err Msg :=
   let msgLen := be (data.take 2)
@@ -256,40 +292,6 @@ def fromBytes (data : Bytes) : Except Err Msg :=
   | some hb =>
     match headerOfByte hb with
     | .error e => .error e
-    | .ok h =>
-      let csbk := slice data msgLen (msgLen + 2) == Gen.Ars.csbkEnd
-      match h.ptype with
-      | .devReg | .userReg =>
-        match (if h.more then
-                 (match data[3]? with
-                  | none => Except.error Err.assertion
-                  | some b => (rrhOfByte b).map some)
-               else .ok none) with
-        | .error e => .error e
-        | .ok rrh =>
-          let idx := if h.more then 4 else 3
-          match readLv data idx with
-          | .error e => .error e
-          | .ok (i1, d) =>
-            match readLv data i1 with
-            | .error e => .error e
-            | .ok (i2, u) =>
-              match readLv data i2 with
-              | .error e => .error e
-              | .ok (_, w) =>
-                if validUtf8 d && validUtf8 u && validUtf8 w then
-                  .ok ⟨h, rrh, none, some d, some u, some w, csbk⟩
-                else .error .unicode
-      | .response =>
-        if h.more then
-          match data[3]? with
-          | none => .error .assertion
-          | some b =>
-            match rshOfByte b h.ack with
-            | .error e => .error e
-            | .ok r => .ok ⟨h, none, some r, none, none, none, csbk⟩
-        else .ok ⟨h, none, none, none, none, none, csbk⟩
-      | .query | .devDereg => .ok ⟨h, none, none, none, none, none, csbk⟩
-      | .userDereg | .userRegResp => .error .value   -- "not implemented in ARS.from_bytes"
+    | .ok h => parseRest data h (slice data msgLen (msgLen + 2) == Gen.Ars.csbkEnd)
 
 end Dmr.Ars
